@@ -94,6 +94,13 @@ def check_static(fname, acc):
                     ev(c.pos >= prev.pos, 'position-order:%s:%s/%s' % (fname, mapmodel.path(n), c.id), c,
                        '%s (pos %d) is declared after %s (pos %d)' % (c.id, c.pos, prev.id, prev.pos))
                 prev = c
+            # repeat limits are well formed: the first segment of a loop coming again opens the next instance of the loop, so
+            # the segment can be allowed more often than once only where the loop itself may repeat without limit
+            if getattr(n, 'type', None) != 'wrapper' and n.children and n.children[0].kind == 'seg' and n.id not in ('ISA_LOOP', 'GS_LOOP', 'ST_LOOP'):
+                f_ = n.children[0]
+                ev(f_.max_use in (None, '1') or n.repeat == '>1', 'first-segment-limit:%s:%s' % (fname, mapmodel.path(n)), f_,
+                   'loop %s repeats %s time(s) but its first segment %s is allowed %s uses: a second %s is counted as the loop repeating'
+                   % (n.id, n.repeat, f_.id, f_.max_use, f_.id))
             paths = {}
             for c in n.children:
                 if c.kind == 'loop':
@@ -114,6 +121,10 @@ def check_static(fname, acc):
             seqs = [c.seq for c in n.children]
             ev(seqs == list(range(1, len(seqs) + 1)), 'element-seq:%s:%s' % (fname, mapmodel.path(n)), n, 'seq values %r' % seqs)
         elif n.kind == 'ele':
+            if n.id is not None:
+                # the reference designator an element carries (it labels the element in XML and in paths) names its position
+                want_ = '%s%02d' % (n.parent.id, n.seq) if n.parent.kind == 'seg' else '%s%02d-%02d' % (n.parent.parent.id, n.parent.seq, n.seq)
+                ev(n.id == want_, 'designator:%s:%s' % (fname, mapmodel.path(n)), n, 'element at %s is labelled %r' % (want_, n.id))
             ev(n.de in de, 'dangling-data-element:%s:%s' % (fname, n.de), n, '%s refers to data element %r which dataele.xml does not define' % (n.id, n.de))
             if n.ext is not None:
                 ev(n.ext in cs, 'dangling-code-set:%s:%s' % (fname, n.ext), n, '%s refers to external code set %r which codes.xml does not define' % (n.id, n.ext))
